@@ -194,6 +194,43 @@ func opSweep(w *World, s *Step) (string, string) {
 	return out, fmt.Sprintf("%s:%s:%s:ok=%d:panic=%d", s.Sweep, suite, d.From, counts["ok"], counts["panic"])
 }
 
+// craftSATail: an SA-typed generic payload whose innermost length fields sit at their boundaries
+// (transform length 8..12, TLV attribute lengths near 0 and near 2^16), every enclosing length
+// repaired, ending exactly at the end of the datagram. Parsed - before authentication - when the
+// genuine message's first inner payload is an SA (the SK header then announces type 33).
+func craftSATail(r *Rng) Hex {
+	tl := Pick(r, 8, 9, 10, 11, 12, 13, 16)
+	tr := make([]byte, tl)
+	tr[0], tr[4] = 0, Pick[uint8](r, 1, 2, 3, 4, 5)
+	tr[2], tr[3] = byte(tl>>8), byte(tl)
+	tr[6], tr[7] = 0, 12
+	if tl > 8 {
+		tr[8] = Pick[uint8](r, 0x00, 0x80, 0x00) // attribute format bit
+	}
+	if tl > 9 {
+		tr[9] = 14
+	}
+	if tl >= 12 {
+		al := Pick(r, 0, 1, tl-12, tl-11, 65533, 65532, 65535, 65531)
+		tr[10], tr[11] = byte(al>>8), byte(al)
+	} else if tl == 11 {
+		tr[10] = Pick[uint8](r, 0, 0xff)
+	}
+	spi := r.Bytes(Pick(r, 0, 0, 4, 8))
+	pl := 8 + len(spi) + tl
+	prop := append([]byte{0, 0, byte(pl >> 8), byte(pl), 1, Pick[uint8](r, 1, 3), byte(len(spi)), 1}, spi...)
+	prop = append(prop, tr...)
+	if r.Chance(1, 4) { // a well-formed transform before the odd one
+		good := []byte{3, 0, 0, 8, 3, 0, 0, 2}
+		pl += 8
+		prop = append([]byte{0, 0, byte(pl >> 8), byte(pl), 1, 1, byte(len(spi)), 2}, spi...)
+		prop = append(prop, good...)
+		prop = append(prop, tr...)
+	}
+	l := 4 + len(prop)
+	return append([]byte{0, 0, byte(l >> 8), byte(l)}, prop...)
+}
+
 func genTail(r *Rng) Hex {
 	switch r.Intn(6) {
 	case 0:
@@ -245,6 +282,13 @@ func genC02(r *Rng, idx int, tier string) *Scenario {
 				m = genSimpleMsg(r, 3)
 				if m.innerSize() <= 150 {
 					break
+				}
+			}
+			if r.Chance(1, 6) { // IKE_SA_INIT / CREATE_CHILD_SA style: an SA payload comes first
+				c2 := GenCfg{SizeClass: 0}
+				m.Payloads = append([]PayloadSpec{genPayload(r, &c2, "SA")}, m.Payloads...)
+				if len(m.Payloads) > 2 {
+					m.Payloads = m.Payloads[:2]
 				}
 			}
 		}
@@ -300,6 +344,11 @@ func genC02(r *Rng, idx int, tier string) *Scenario {
 			m := msgs[dg]
 			if len(m.Payloads) == 0 {
 				st.Fault = &Fault{Kind: "extend", Data: genTail(r)}
+				break
+			}
+			if m.Payloads[0].Kind == "SA" && r.Chance(1, 2) {
+				st.Fault = &Fault{Kind: Pick(r, "extend", "extend_fix"), Data: craftSATail(r)}
+				st.Rx.Spare = Pick(r, 0, 0, 16)
 				break
 			}
 			cfg := GenCfg{SizeClass: Pick(r, 0, 1), Corner: 10}
